@@ -78,6 +78,7 @@ type Opts struct {
 	SubBuf      int
 	ExtraSubs   int         // extra subscribers (for the same-order check)
 	Mock        *clock.Mock // mock clock + timer event definitions
+	Fan         *event.FanOut // event bus shared with other instances (only with Mock; nil = a private one)
 	Ctx         context.Context
 	OnTrace     func(in *Inst, e *Ev) // called by the consumer of subscriber 0 for each trace
 	NoSubscribe bool
@@ -270,7 +271,10 @@ func New(label string, defs *schema.Definitions, o Opts) (*Inst, error) {
 	}
 	opts = append(opts, o.RawOptions...)
 	if o.Mock != nil {
-		fan := event.NewFanOut()
+		fan := o.Fan
+		if fan == nil {
+			fan = event.NewFanOut()
+		}
 		tr := tracing.NewTracer(in.Ctx)
 		b := event.DefinitionInstanceBuildingChain(
 			timer.EventDefinitionInstanceBuilder(in.Ctx, fan, tr),
